@@ -105,6 +105,13 @@ CHECKS = {
     "C12": chk([e1("seq", 1)], SEQ_RULE, "Seeded histories of delete/update/merge_insert with random predicates and sources; scan and counts equal the model's SQL semantics; must-fail operations leave no effect."),
     "C13": chk([e1("seq", 1)], SEQ_RULE, "Seeded histories with compaction under random options; contents, row ids and indexed query results unchanged."),
     "C14": chk([e1("seq", 1)], SEQ_RULE, "Seeded add/alter/drop column sequences interleaved with writes; untouched columns and order preserved, added values as requested."),
+    "C15": chk([e1("seq", 1)], SEQ_RULE, "Seeded histories (deletes, updates, compaction, restore; stable row ids on/off); take by offsets and by row ids with random projections, duplicates and unsorted keys equals the ordered scan.",
+               required_probes=["take-calls"]),
+    "C16": chk([e1("seq", 1)], SEQ_RULE, "Partial claim (column universe and predicate grammar of the model): random filter/projection/limit queries equal the model's SQL evaluation and are identical under 4 random knob vectors (batch size, readahead, io buffer, stats, index use, materialisation).",
+               required_probes=["knob-queries"]),
+    "C17": chk([e1("seq", 1, stable=1)], SEQ_RULE, "Seeded histories on tables with stable row ids; created-at / last-updated version of every row and inserted/updated deltas for random version pairs equal the lineage model."),
+    "C18": chk([e1("seq", 2, stable=1), e1("conc", 1, stable=1)], SEQ_RULE, "Seeded histories and concurrent rounds with stable row ids; every logical row keeps its id, ids unique and never re-issued, take_rows(id) returns the current image."),
+    "C37": chk([e1("seq", 1)], SEQ_RULE, "Partial claim (history part): after every commit reader/writer flags match contents (deletion files, stable row ids, config, base paths) and every data file carries the table's storage version."),
     "C19": chk([e1("seq", 1)], SEQ_RULE, "Seeded histories that grow/delete/update/compact/optimize exact scalar indices; every random predicate returns the same rows with and without the index."),
     "C20": chk([e1("seq", 1)], SEQ_RULE, "As C19 for zone-map, bloom-filter and n-gram indices with random parameters."),
     "C24": chk([e1("conc", 1, stable=0)], CONC_RULE, "Index creation/optimisation racing with column rewrites and compaction in all commit orders; indexed = unindexed query results afterwards.",
@@ -136,7 +143,7 @@ CHECKS = {
 }
 
 # properties whose checks are registered in MANIFEST.json (clean on the unchanged tree)
-REGISTERED = ["C01", "C02", "C03", "C04", "C05", "C06", "C07", "C10", "C11", "C12", "C13", "C14", "C19", "C20", "C24", "C30", "C31", "C33", "C39", "C41"]
+REGISTERED = ["C01", "C02", "C03", "C04", "C05", "C06", "C07", "C10", "C11", "C12", "C13", "C14", "C15", "C16", "C17", "C18", "C19", "C20", "C24", "C30", "C31", "C33", "C37", "C39", "C41"]
 
 PURE = "pure function of its inputs: no task, timer, storage call, clock, fault or second party for a scheduler or fault injector to decide (DESIGN.md section 6)"
 NOT_APPLICABLE = {
